@@ -33,11 +33,12 @@ t_PDEC == Hdr.pdec
 t_UNBOND == Hdr.unbond
 t_PREC == "1000000000000000000"
 
-VARIABLES l, L, G, O
+VARIABLES l, L, G, O, cov
 \* l: next line; L: observed store; G: ghosts (cumulative flows); O: exit-path ghosts
 \*   O.orig[k]   = [s, a, o, amt, complete] of every record ever seen, as first seen
 \*   O.gone      = keys of records that were released
-vars == <<l, L, G, O>>
+\*   cov: coverage goals (Ledger!Goals) reached so far by the real executions of this trace
+vars == <<l, L, G, O, cov>>
 
 
 (***************************************************************************)
@@ -241,6 +242,7 @@ Init ==
   /\ L = EmptyStore
   /\ G = ZeroG
   /\ O = [orig |-> <<>>, gone |-> {}]
+  /\ cov = {}
 
 Next ==
   /\ l <= Len(Trace)
@@ -248,7 +250,8 @@ Next ==
   /\ LET line == Trace[l] IN
      IF line.ev = "reset" THEN
        LET st == FromLog(line.st) IN
-       /\ L' = st /\ G' = InitG(st) /\ O' = InitO(st)
+       /\ L' = st /\ G' = InitG(st) /\ O' = InitO(st) /\ cov' = cov
+       /\ (l < Len(Trace) \/ PrintT("COV " \o ToJson(cov)))
        /\ LET tags == StateTags(st, InitG(st)) IN tags = {} \/ PrintT("TAG " \o ToJson([l |-> l, ev |-> "reset", tags |-> tags]))
      ELSE
        LET post == FromLog(line.st)
@@ -256,7 +259,9 @@ Next ==
            tags == StateTags(post, g2) \cup StepTags(L, post, line.ev, line.a, line.ok, O) \cup
                    (IF line.ev = "Slash" THEN RecordedTags(L, post, line.a, line.ok, line.st.sinfo) ELSE {}) \cup
                    StrictTags(L, post, line.ev, line.a, line.ok, line.panic)
-       IN /\ L' = post /\ G' = g2 /\ O' = OStep(O, L, post)
+           c2   == cov \cup Goals(L, line.ev, line.a, Apply(L, line.ev, line.a))
+       IN /\ L' = post /\ G' = g2 /\ O' = OStep(O, L, post) /\ cov' = c2
+          /\ (l < Len(Trace) \/ PrintT("COV " \o ToJson(c2)))
           /\ tags = {} \/ PrintT("TAG " \o ToJson([l |-> l, ev |-> line.ev, tags |-> tags]))
 
 Spec == Init /\ [][Next]_vars
